@@ -152,6 +152,22 @@ type Built struct {
 	Tested   repository.Hash // the tested commit
 	SignedBy string          // key that signed the tested commit ("" = unsigned)
 	Skip     string
+	// value of the bug edit clock of the repository read right before each version of the author's
+	// identity was created (NewIdentity, then every Mutate): the logical time at which that version
+	// was made, taken independently of what the version itself recorded
+	Clock []uint64
+}
+
+// editClock reads the current value of the repository's bug edit clock (0 when it does not exist yet).
+func editClock(repo repository.RepoClock) (uint64, error) {
+	clocks, err := repo.AllClocks()
+	if err != nil {
+		return 0, err
+	}
+	if c, ok := clocks["bugs-edit"]; ok {
+		return uint64(c.Time()), nil
+	}
+	return 0, nil
 }
 
 func resolvers(repo repository.ClockedRepo) entity.Resolvers {
@@ -166,7 +182,10 @@ func resolvers(repo repository.ClockedRepo) entity.Resolvers {
 // operation pack without operations in the author's name, the next value of the edit clock, signed
 // with the author's signing key if there is one (same exported calls as operationPack.Write:
 // StoreData, StoreTree, StoreSignedCommit / StoreCommit). The two branches are commits by bob.
-func Build(dir string, keys Keys, history []string, pos Position, signer string, kind string) (*Built, error) {
+//
+// late: the author's identity is created after bugs exist (a second user joining), so that its
+// first version already records the bug clocks; otherwise it is created in the empty repository.
+func Build(dir string, keys Keys, history []string, pos Position, signer string, kind string, late bool) (*Built, error) {
 	vctl.SetActor("writer")
 	repo, err := repository.InitGoGitRepo(filepath.Join(dir, "A"), world.Namespace)
 	if err != nil {
@@ -174,13 +193,6 @@ func Build(dir string, keys Keys, history []string, pos Position, signer string,
 	}
 	defer repo.Close()
 	now := func() int64 { return vtime.Now().Unix() }
-	alice, err := identity.NewIdentity(repo, "Alice", "alice@example.org")
-	if err != nil {
-		return nil, err
-	}
-	if err := alice.Commit(repo); err != nil {
-		return nil, err
-	}
 	bob, err := identity.NewIdentity(repo, "Bob", "bob@example.org")
 	if err != nil {
 		return nil, err
@@ -203,6 +215,26 @@ func Build(dir string, keys Keys, history []string, pos Position, signer string,
 		}
 		return spacerBug.Commit(repo)
 	}
+	if late {
+		for i := 0; i < 2; i++ {
+			if err := spacer(); err != nil {
+				return nil, err
+			}
+		}
+	}
+	var recorded []uint64
+	t0, err := editClock(repo)
+	if err != nil {
+		return nil, err
+	}
+	recorded = append(recorded, t0)
+	alice, err := identity.NewIdentity(repo, "Alice", "alice@example.org")
+	if err != nil {
+		return nil, err
+	}
+	if err := alice.Commit(repo); err != nil {
+		return nil, err
+	}
 	// the bug under test: create + one more commit, both while no key was ever declared
 	b, _, err := bug.Create(nobody(alice), now(), "signed bug", "message", nil, nil)
 	if err != nil {
@@ -218,6 +250,7 @@ func Build(dir string, keys Keys, history []string, pos Position, signer string,
 		return nil, err
 	}
 	out := &Built{Dir: filepath.Join(dir, "A"), Bug: b.Id(), Author: alice.Id()}
+	defer func() { out.Clock = recorded }()
 
 	// who signs: decided once the key sets are known
 	var sets [][]string // key set of version j
@@ -289,6 +322,11 @@ func Build(dir string, keys Keys, history []string, pos Position, signer string,
 			return nil, err
 		}
 		ks := sets[j]
+		tj, err := editClock(repo)
+		if err != nil {
+			return nil, err
+		}
+		recorded = append(recorded, tj)
 		if err := alice.Mutate(repo, func(m *identity.Mutator) {
 			if ch == "name" {
 				m.Name = fmt.Sprintf("Alice %d", j)
@@ -762,14 +800,16 @@ func verifies(dir string, h repository.Hash, armoredPub string) (bool, error) {
 
 // Expected is the verdict the statement prescribes for reading the bug, with the reasons.
 type Expected struct {
-	Accept  bool     `json:"accept"`
-	T       uint64   `json:"t"`
-	Times   []uint64 `json:"version_times"`
-	InForce int      `json:"keys_in_force"`
-	Valid   bool     `json:"signature_valid_under_a_key_in_force"`
-	Signed  bool     `json:"signed"`
-	AtBound bool     `json:"at_version_time"`
-	Parents int      `json:"parents_of_tested_commit"`
+	Accept      bool     `json:"accept"`
+	T           uint64   `json:"t"`
+	Times       []uint64 `json:"version_times"`        // clock of the repository when each version was created
+	Stored      []uint64 `json:"version_times_stored"` // what the versions recorded
+	TimesDiffer bool     `json:"stored_times_differ,omitempty"`
+	InForce     int      `json:"keys_in_force"`
+	Valid       bool     `json:"signature_valid_under_a_key_in_force"`
+	Signed      bool     `json:"signed"`
+	AtBound     bool     `json:"at_version_time"`
+	Parents     int      `json:"parents_of_tested_commit"`
 }
 
 // packAuthor reads the author id of the operation pack of a commit.
@@ -815,7 +855,22 @@ func Expect(b *Built) (Expected, error) {
 	}
 	exp := Expected{Accept: true}
 	for _, v := range versions {
+		exp.Stored = append(exp.Stored, v.Time)
+	}
+	// a key counts from the logical time at which the version that introduced it was created: the
+	// clock read right before NewIdentity / Mutate, not what the version claims
+	if len(b.Clock) == len(versions) {
+		for i := range versions {
+			versions[i].Time = b.Clock[i]
+		}
+	} else {
+		return exp, fmt.Errorf("%d versions stored, %d created", len(versions), len(b.Clock))
+	}
+	for i, v := range versions {
 		exp.Times = append(exp.Times, v.Time)
+		if v.Time != exp.Stored[i] {
+			exp.TimesDiffer = true
+		}
 	}
 	// all commits of the bug
 	seen := map[repository.Hash]bool{}
